@@ -3,7 +3,6 @@
 PROP = {
     "pkg": "internal/dhcpd",
     "files": ["dhcpd/c10_world_test.go", "dhcpd/c10_machine_test.go", "dhcpd/c10_regress_test.go"],
-    "claimed": False,
     "level": "exploration",
     "technique": "property-based testing (rapid): stateful history machine over the production DHCPv4 server "
                  "(wire packets through the packet handler, static leases through the HTTP handlers, real "
